@@ -81,7 +81,7 @@ def _mp_case(prob, k, v, schedule_fn, mode, rng, die=None, timeouts=None):
     impl = f"? {sols} {'none' if best is None else nv.enc_ints(best)} {1 if raised else 0} {agg}"
     part_shr = [[tuple(int(x) for x in d) for d in q.shr_domains_lst] for q in p.split(k, v)]
     return impl, req, {"counts": counts, "yielded": yielded, "best": best, "raised": raised, "k": kk, "streams": streams,
-                       "part_shr": part_shr}
+                       "part_shr": part_shr, "consumed": script.pos, "scheduled": len(script.schedule)}
 
 
 def worker_stream_reqs(prob, mode, info):
